@@ -474,7 +474,14 @@ func (self *StateStore) ClearAll() error {
 		self.store.NewBatch() // reset the batch
 		return err
 	}
-	return self.store.BatchCommit()
+	if err := self.store.BatchCommit(); err != nil {
+		return err
+	}
+	// the merkle trees loaded by NewStateStore described the data that was just deleted: start again from the empty store
+	if self.merkleHashStore != nil {
+		self.merkleHashStore.Close()
+	}
+	return self.init(0)
 }
 
 //Close state store
